@@ -72,7 +72,7 @@ structure Static where
 /-- `GFunction`: keys of `g_lts` in dict order, and `interpolation_table` (`none` = empty dict). -/
 structure GF where
   heights : List Rat
-  table : Option (Kind × Fill)
+  table : Option (Kind × Fill)    -- `some p`: built, with `built_for = p`
   deriving DecidableEq, Repr, Inhabited
 
 /-- What `g_function_interpolation` handed to the simulation. -/
@@ -185,7 +185,9 @@ def lookupCore (hs : List Rat) (tb : Option (Kind × Fill)) (h : Rat) : Py GLook
       else (.error .valueError, tb)
   | h0 :: h1 :: t =>
       let hs := h0 :: h1 :: t
-      let t' := tb.getD (kindOf hs.length, fillOf hs h)   -- built only when the table is empty
+      let want := (kindOf hs.length, fillOf hs h)
+      -- fix 5ab5ff6: (re)built when empty or built for another (kind, fill_value); `built_for` is the pair stored
+      let t' := if tb = some want then tb.getD want else want
       if t'.2 = .empty ∧ (snap hs h < listMin hs ∨ listMax hs < snap hs h) then (.error .valueError, some t')   -- interp1d bounds error
       else (.ok { heights := hs, interp := some t', hEq := snap hs h }, some t')
 
@@ -197,11 +199,12 @@ def lookup (gf : GF) (h : Rat) : Py GLook × GF :=
 def mkGHE (st : Static) (f : FieldId) (h : Rat) : GHE :=
   { st := st, field := f, hLoad := h, gf := { heights := [h], table := none }, times := .empty, last := none, trace := [] }
 
-/-- `n_hours` and `len(q_dot)` of the HOURLY branch. -/
+/-- `n_hours` and `len(q_dot)` of the HOURLY branch (fix 05a458d: the repeated loads are cut at the horizon). -/
 def hourlyAxis (st : Static) : Nat × Nat :=
   let nHours := st.sim.months * 730                  -- int(n_months / 12.0 * 8760.0)
   let nYears := (nHours + 8759) / 8760               -- ceil(n_hours / 8760)
-  if st.loads.len / 8760 < nYears then (nHours, st.loads.len * nYears) else (st.loads.len, st.loads.len)
+  if st.loads.len / 8760 < nYears then (nHours, min (st.loads.len * nYears) nHours)   -- (q_dot * n_years)[:n_hours]
+  else (st.loads.len, st.loads.len)
 
 /-- `GHE.simulate(method)`.  Reads `b.H` (never writes it), the g-function and its table. -/
 def simulate (K : Kernels) (b : BH) (g : GHE) (m : Method) : Py Temps × GHE :=
